@@ -1,0 +1,68 @@
+//go:build verif
+
+package download
+
+// Accessors for the /verif harnesses (properties C33, C35). Add-only, compiled only with -tags verif.
+
+import (
+	"sync"
+
+	"github.com/33cn/chain33/queue"
+	"github.com/33cn/chain33/system/p2p/dht/protocol"
+	"github.com/33cn/chain33/types"
+	"github.com/libp2p/go-libp2p/core/network"
+	"github.com/libp2p/go-libp2p/core/peer"
+)
+
+// VerifTasks is the per-download peer list (a Go slice: workers share its backing array).
+type VerifTasks = tasks
+
+// VerifTask is one entry.
+type VerifTask = taskInfo
+
+// VerifNew builds the protocol object without registering handlers.
+func VerifNew(env *protocol.P2PEnv) *Protocol {
+	return &Protocol{P2PEnv: env, counter: NewCounter()}
+}
+
+// VerifInitJob is initJob.
+func (p *Protocol) VerifInitJob(pids []string, taskID string) VerifTasks { return p.initJob(pids, taskID) }
+
+// VerifDownloadBlock is downloadBlock (mu == nil: the variant without a mutex used by checkTask).
+func (p *Protocol) VerifDownloadBlock(height int64, ts VerifTasks, mu *sync.Mutex) error {
+	if mu == nil {
+		return p.downloadBlock(height, ts)
+	}
+	return p.downloadBlock(height, ts, mu)
+}
+
+// VerifAvailbTask is availbTask.
+func (p *Protocol) VerifAvailbTask(ts VerifTasks, height int64) *VerifTask { return p.availbTask(ts, height) }
+
+// VerifRemove is tasks.Remove.
+func VerifRemove(ts VerifTasks, t *VerifTask) VerifTasks { return ts.Remove(t) }
+
+// VerifSort is tasks.Sort.
+func VerifSort(ts VerifTasks) VerifTasks { return ts.Sort() }
+
+// VerifReleaseJob is releaseJob.
+func (p *Protocol) VerifReleaseJob(t *VerifTask) { p.releaseJob(t) }
+
+// VerifFetch is downloadBlockFromPeerOld.
+func (p *Protocol) VerifFetch(height int64, pid peer.ID) (*types.Block, error) {
+	return p.downloadBlockFromPeerOld(height, pid)
+}
+
+// VerifCheckTask is checkTask.
+func (p *Protocol) VerifCheckTask(taskID string, pids []string, failed map[string]interface{}) {
+	p.checkTask(taskID, pids, failed)
+}
+
+// VerifHandleEvent is handleEventDownloadBlock.
+func (p *Protocol) VerifHandleEvent(msg *queue.Message) { p.handleEventDownloadBlock(msg) }
+
+// VerifStreamOld is handleStreamDownloadBlockOld.
+func (p *Protocol) VerifStreamOld(s network.Stream) { p.handleStreamDownloadBlockOld(s) }
+
+// VerifStreamNew is handleStreamDownloadBlock.
+func (p *Protocol) VerifStreamNew(s network.Stream) { p.handleStreamDownloadBlock(s) }
